@@ -18,7 +18,7 @@ OWN = {   # invariant / action property -> property it decides
     'RefusedAfterShutdown': 'C03', 'NoRegisterAfterShutdown': 'C03', 'ReceivedNotSwept': 'C03',
     'SweepComplete': 'C03', 'AfterSweepAllDone': 'C03', 'ObsHang': 'C03',
     'ExecAtMostOnce': 'C04', 'ExecOnlySent': 'C04', 'PingNoExec': 'C04', 'OneResponsePerRequest': 'C04',
-    'OkImpliesExecOnce': 'C04', 'RespondedImpliesExec': 'C04',
+    'OkImpliesExecOnce': 'C04', 'RespondedImpliesExec': 'C04', 'NoMethodNoExec': 'C04',
     'ExecInOrder': 'C05', 'AtMostOneExecuting': 'C05', 'RespInOrder': 'C05', 'CompInOrder': 'C05',
     'ErrToOwner': 'C06', 'OkOnlyIfHandlerOk': 'C06', 'MarshalFailNoResidue': 'C06', 'ObsErrText': 'C06',
     'AbandonedHarmless': 'C19', 'CtxDoneOnlyAfterSignal': 'C19', 'ObsCtx': 'C19',
@@ -42,7 +42,7 @@ def modes(cp=False, cd=False, sp=False, sd=False):
 
 def consts(calls, m, dev=(), wfail=0, mfail=0, dup=0, unk=0, cut=0, loss=0, close=0, ctx=()):
     calls = set(calls)
-    c = {'Calls': calls, 'Pings': {x for x in calls if x % 4 == 3}, 'FailCalls': {x for x in calls if x % 4 == 2},
+    c = {'Calls': calls, 'Pings': {x for x in calls if x % 4 == 3}, 'FailCalls': {x for x in calls if x % 4 == 2}, 'NoMethodCalls': {x for x in calls if x % 8 == 6},
          'CtxCalls': set(ctx) if ctx is not None else {x for x in calls if x % 4 == 0}}
     c.update(m)
     c.update({'MaxWFail': wfail, 'MaxMFail': mfail, 'MaxDup': dup, 'MaxUnk': unk, 'MaxCut': cut, 'MaxLoss': loss,
@@ -71,7 +71,7 @@ def to_steps(acts):
         if name in ('WriteFailClosed', 'WriteFailInjected'):
             name = st['a'] = 'WriteFail'
         if name in ('Start', 'Refuse', 'Register', 'WriteOK', 'WriteFail', 'MarshalFail', 'Finish', 'CtxReturnDone', 'WqTake',
-                    'CtxCancel', 'InjectDup', 'SrvExecBegin', 'SrvExecEnd', 'SrvRespond'):
+                    'CtxCancel', 'InjectDup', 'SrvExecBegin', 'SrvExecEnd', 'SrvRespond', 'SrvLookupFail'):
             st['c'] = a[0]
         elif name == 'ReaderEOF':
             st['b'] = bool(a[0])
@@ -91,7 +91,7 @@ def to_steps(acts):
 def sched(name, c, acts, pad=24):
     cfg = {'CliPipe': c['CliPipe'], 'CliDirect': c['CliDirect'], 'SrvPipe': c['SrvPipe'], 'SrvDirect': c['SrvDirect'],
            'Calls': sorted(c['Calls']), 'Pings': sorted(c['Pings']), 'CtxCalls': sorted(c['CtxCalls']),
-           'FailCalls': sorted(c['FailCalls']), 'PadSize': pad}
+           'FailCalls': sorted(c['FailCalls']), 'NoMethodCalls': sorted(c.get('NoMethodCalls', ())), 'PadSize': pad}
     return {'name': name, 'cfg': cfg, 'steps': to_steps(acts)}
 
 def deviation_schedule(tag, c, dev, invs=None, props=None):
@@ -200,7 +200,7 @@ def split_traces(path):
 
 def trace_cfg(mk, maxid):
     m = {'CliPipe': mk[0] == '1', 'CliDirect': mk[1] == '1', 'SrvPipe': mk[2] == '1', 'SrvDirect': mk[3] == '1'}
-    c = {'MaxCallId': maxid, 'Calls': '<- TrCalls', 'Pings': '<- TrPings', 'CtxCalls': '<- TrCtx', 'FailCalls': '<- TrFail',
+    c = {'MaxCallId': maxid, 'Calls': '<- TrCalls', 'Pings': '<- TrPings', 'CtxCalls': '<- TrCtx', 'FailCalls': '<- TrFail', 'NoMethodCalls': '<- TrNoMethod',
          'Dev': '<- Deviations'}
     c.update(m)
     for b in ('MaxWFail', 'MaxMFail', 'MaxDup', 'MaxUnk', 'MaxCut', 'MaxLoss', 'MaxClose'):
